@@ -110,7 +110,8 @@ type month struct{}
 
 // CalcSlot calculates field store slot index based on given timestamp and base time for month interval type
 func (m *month) CalcSlot(timestamp, baseTime, interval int64) int {
-	return int(((timestamp - baseTime) % timeutil.OneDay) / interval)
+	// base time is the family(local day) start time, a local day can be longer than 24 hours(time zone with daylight saving)
+	return int((timestamp - baseTime) / interval)
 }
 
 // GetSegment returns segment name by given timestamp for month interval type
